@@ -94,7 +94,7 @@ def Namespace_getitem(self: "Ns", localpart: "str") -> "QN":
 
 @spec
 def HashIdent(x: "Ident") -> "int":
-    return uf("hash_tuple2", "int", uf("hash_str", "int", x.uri), clsid("Identifier"))
+    return uf("hash_str", "int", x.uri)
 
 
 @spec
